@@ -235,6 +235,13 @@ class PinWorld:
 
     # -- arrivals ------------------------------------------------------------------------------
     def _arrive(self, ball, dstname, fell_back):
+        # balls are indistinguishable: when two balls from the same source are under way to the same target (the
+        # first one late), the arrival of either confirms the source's *current* eject; the one still on its way is
+        # then unknown to any controller
+        for other in self.balls:
+            if other is not ball and other.kind == "transit" and other.src == ball.src and other.dst == dstname \
+                    and not fell_back:
+                other.ambiguous = True
         if dstname in self.devs:
             self._enter(ball, self.devs[dstname], fell_back)
         else:
